@@ -16,7 +16,7 @@ LEVEL = "exploration"
 RULE = (
     "Lists of 1-5 member streams: the 29 corpus streams (profiles LD/HQ, versions 1-3, fragments, fields, different formats and "
     "picture numbering), freshly encoded random configurations with drawn picture numbering (incl. wrap at 2^32), and at most one "
-    "non-conformant member (bit-field mutation of a corpus stream) at a drawn position. A non-conformant member is only used if, "
+    "non-conformant member (bit-field mutation of a corpus stream, major_version one too high, or a stream cut short so that only the end-of-sequence rules -- incomplete fragmented picture, odd number of fields -- fail) at a drawn position. A non-conformant member is only used if, "
     "alone, it fails with an error other than UnexpectedEndOfStream (a member whose parse runs off its own end is not delimited). "
     "Oracle (metamorphic): the concatenation is accepted iff every member alone is accepted; the pictures, video parameters and "
     "coding modes output for the concatenation equal the concatenation of the members' outputs up to and including what the "
@@ -84,6 +84,39 @@ def overversion(i):
     return _OVER[i]
 
 
+_CUT = {}
+
+
+def cut_short(i):
+    """Corpus stream i with the last slice-carrying fragment (else, for field coding, the last picture) of its last
+    sequence removed and the offsets recomputed: every data unit is fine, only the *end-of-sequence* bookkeeping
+    (incomplete fragmented picture / odd number of fields) makes it non-conformant. None if not applicable."""
+    if i not in _CUT:
+        import copy
+
+        from vc2_conformance.bitstream.vc2_autofill import AUTO
+
+        d = copy.deepcopy(C.descriptions()[i])
+        units = d["sequences"][-1]["data_units"]
+        frags = [k for k, du in enumerate(units) if "fragment_parse" in du
+                 and du["fragment_parse"]["fragment_header"]["fragment_slice_count"] > 0]
+        pics = [k for k, du in enumerate(units) if "picture_parse" in du]
+        if frags:
+            del units[frags[-1]]
+        elif pics and "fields" in C.corpus()[i]["name"]:
+            del units[pics[-1]]
+        else:
+            _CUT[i] = None
+            return None
+        for seq in d["sequences"]:
+            for du in seq["data_units"]:
+                du["parse_info"].pop("padding", None)
+                du["parse_info"]["next_parse_offset"] = AUTO
+                du["parse_info"]["previous_parse_offset"] = AUTO
+        _CUT[i] = S.serialise_stream(d)
+    return _CUT[i]
+
+
 @st.composite
 def members(draw):
     n = draw(st.integers(1, 5))
@@ -92,7 +125,12 @@ def members(draw):
     mutant_at = (n - 1 - draw(st.integers(0, n - 1))) if draw(st.integers(0, 2)) == 0 else None
     corp = C.corpus()
     for k in range(n):
-        if k == mutant_at and draw(st.booleans()):
+        if k == mutant_at and draw(st.integers(0, 2)) == 0:
+            # a member whose only fault is found when its sequence ends
+            cands = [j for j in range(len(corp)) if cut_short(j) is not None]
+            i = cands[draw(st.integers(0, len(cands) - 1))]
+            out.append(("cutshort:" + corp[i]["name"], cut_short(i), ["last fragment / field removed"]))
+        elif k == mutant_at and draw(st.booleans()):
             # a member that is non-conformant by ONE sequence-level rule whose bookkeeping must not leak between
             # sequences: major_version one higher than its own features need
             i = draw(st.integers(0, len(corp) - 1))
@@ -207,6 +245,8 @@ def body(ms, col):
         lab.append("has_mutant")
     if any(n.startswith("overversion") for n in names):
         lab.append("has_overversion_member")
+    if any(n.startswith("cutshort") for n in names):
+        lab.append("has_cutshort_member")
     if facts.get("first_bad") is not None:
         lab.append("nonconformant_member_at:%d" % facts["first_bad"])
     if facts["class_changed"]:
